@@ -57,6 +57,10 @@ public:
   void compress(const cpc_sketch_alloc<A>& source, compressed_state<A>& target) const;
   void uncompress(const compressed_state<A>& source, uncompressed_state<A>& target, uint8_t lg_k, uint32_t num_coupons) const;
 
+  // checks the sizes found in a serialized image against the limits for the given lg_k
+  // so that nothing is allocated from a corrupted size
+  static void check_compressed_sizes(const compressed_state<A>& source, uint8_t lg_k);
+
   // methods below are public for testing
 
   // This returns the number of compressed words that were actually used. It is the caller's
